@@ -73,7 +73,9 @@ def _gen(rng, fresh):
          "fresh": fresh, "by_value": fresh or rng.random() < 0.3, "pseed": rng.randint(0, 10 ** 9),
          "spelling": rng.choice(["dict", "tuple", "list"]), "reload_before_reap": rng.random() < 0.6,
          # the function is NOT written to disk: every grow is handed the function explicitly
-         "save_fn": False if (not fresh and rng.random() < 0.12) else None}
+         "save_fn": False if (not fresh and rng.random() < 0.12) else None,
+         # an earlier campaign at the SAME name and directory, with another function, sown/grown/reaped by this very process
+         "prelude": (not fresh) and rng.random() < 0.2}
     r = rng.random()
     if r < 0.45:
         c["batchsize"] = rng.randint(1, n + 1)
@@ -135,6 +137,21 @@ def run_case(ctx, case):
         ctx.violation(case, msg, dict(sig, **extra))
         ctx.rmtree(tmp)
         ctx.observe(case, nontrivial=False)
+
+    # ------------------------------------------------------------------ an earlier crop at the same place
+    if case.get("prelude"):
+        try:
+            with quiet():
+                okind = "str" if not kind.startswith("str") else "int"
+                c0 = xyzpy.Crop(fn=probe.Probe(okind, name="probe"), name=name, parent_dir=tmp, batchsize=2)
+                c0.sow_combos({"zz": [1, 2, 3]}, verbosity=0)
+                xyzpy.Crop(name=name, parent_dir=tmp).grow_missing()
+                r0 = c0.reap()
+            if refmodel.deep_eq(r0, tuple(probe.make(okind, {"zz": v}) for v in (1, 2, 3))):
+                return fail("the earlier crop at the same place reaped %r" % (r0,), step="prelude")
+            ctx.count("crops_reusing_a_location")
+        except Exception as e:
+            return fail("earlier crop at the same place raised %r" % (e,), step="prelude", **exc_sig(e))
 
     # ------------------------------------------------------------------ sow
     crop = None
